@@ -390,10 +390,15 @@ impl SvgElement {
                     .ok_or_else(|| SvgdxError::ReferenceError(elref))?;
                 if let Some(sz) = ctx.get_element_size(el)? {
                     p.update_size(&sz);
-                    if el.name == "circle" || el.name == "ellipse" {
-                        // The referenced element is defined by its center,
-                        // but use elements are defined by top-left pos.
-                        p.translate(sz.0 / 4., sz.1 / 4.);
+                    // The x/y attributes of a `use` element *translate* the target, so plain
+                    // x/y values are kept as given. Where the position is instead given in
+                    // terms of the instance's bounding box (cx, x2, ...), convert to a
+                    // translation by allowing for the target's own offset from the origin.
+                    if let Some(target_bb) = el.bbox()? {
+                        let (tx, ty) = target_bb.locspec(LocSpec::TopLeft);
+                        let dx = if p.cx.is_some() || p.xmax.is_some() { -tx } else { 0. };
+                        let dy = if p.cy.is_some() || p.ymax.is_some() { -ty } else { 0. };
+                        p.translate(dx, dy);
                     }
                 }
             }
